@@ -486,6 +486,12 @@ pub fn run_schedule(p: &Program, prefix: &[usize]) -> Execution {
             ex.deadlock = Some(format!(
               "thread {t} never returned after {at:?}: it stayed blocked although every other thread ran to completion"
             ));
+          } else if !others_done && late.is_err() {
+            // the other threads were released too and at least one of them blocked for good as
+            // well: no thread is parked by the scheduler any more, and none of the rest moves
+            ex.deadlock = Some(format!(
+              "thread {t} never returned after {at:?}, and releasing every other thread did not help: the remaining threads block each other (lock-order deadlock)"
+            ));
           } else {
             ex.stuck = Some(format!(
               "thread {t} blocked after {at:?} on a lock held by a paused thread (an acquisition without a hook point); others_done={others_done}"
@@ -704,6 +710,8 @@ pub fn programs(tier: &str) -> Vec<Program> {
       vec![r()],
       vec![vec![Op::Call(0, Source)], vec![Op::CloneCall(0, Source)], vec![Op::Call(0, Hash)]],
     ),
+    mk("P1h replace a==b||b==a", vec![r(), r()], vec![vec![Op::Eq(0, 1)], vec![Op::Eq(1, 0)]]),
+    mk("P1i replace a==b,source||b==a,hash", vec![r(), r()], vec![vec![Op::Eq(0, 1), Op::Call(0, Source)], vec![Op::Eq(1, 0), Op::Call(1, Hash)]]),
     mk("P1f replace clone->source,clone->hash||map", vec![r()], vec![vec![Op::CloneCall(0, Source), Op::CloneCall(0, Hash)], vec![Op::Call(0, MapT)]]),
     // P2 cold CachedSource
     mk("P2a cached map||stream", vec![c()], vec![vec![Op::Call(0, MapT)], vec![Op::Call(0, StreamTN)]]),
